@@ -345,7 +345,7 @@ func runStreamScenarios(c *Ctx) error {
 		if err != nil {
 			return fmt.Errorf("scenario %s: %w", s.id, err)
 		}
-		c.Case("witness-"+s.id, h.xterm(), histInput(h))
+		c.Case("witness-"+s.id, c.sterm(h.xterm()), histInput(h))
 		c.Extra["witness_"+s.id+"_reproduced"] = reproduced
 	}
 	return nil
